@@ -155,6 +155,27 @@ AnnotNode(n) ==
                    !.else = AnnotElse(n.else, n.ewc)]
     [] OTHER -> n
 
+\* the same program with every whitespace-control marker removed
+RECURSIVE ClearWc(_)
+ClearBranch(b) == [b EXCEPT !.wc = <<"", "">>, !.body = ClearWc(b.body)]
+ClearWc(nodes) ==
+  [i \in DOMAIN nodes |->
+     LET n == nodes[i] IN
+     CASE n.k = "text" -> n
+       [] n.k = "raw" -> [n EXCEPT !.wc = <<"", "", "", "">>]
+       [] n.k \in {"capture", "with"} -> [n EXCEPT !.wc = <<"", "">>, !.ewc = <<"", "">>, !.body = ClearWc(n.body)]
+       [] n.k \in {"if", "unless"} ->
+            [n EXCEPT !.wc = <<"", "">>, !.ewc = <<"", "">>, !.body = ClearWc(n.body),
+                      !.elifs = [j \in DOMAIN n.elifs |-> ClearBranch(n.elifs[j])],
+                      !.else = ClearBranch(n.else)]
+       [] n.k = "case" ->
+            [n EXCEPT !.wc = <<"", "">>, !.ewc = <<"", "">>,
+                      !.whens = [j \in DOMAIN n.whens |-> ClearBranch(n.whens[j])],
+                      !.else = ClearBranch(n.else)]
+       [] n.k = "for" ->
+            [n EXCEPT !.wc = <<"", "">>, !.ewc = <<"", "">>, !.body = ClearWc(n.body), !.else = ClearBranch(n.else)]
+       [] OTHER -> [n EXCEPT !.wc = <<"", "">>]]
+
 \* a whole template: no markup before the first or after the last node
 AnnotTemplate(nodes) == Annot(nodes, "", "")
 =============================================================================
